@@ -431,7 +431,7 @@ class Gen:
             for _ in range(50):
                 n = names.hostile(self.rng)
                 k = names.collide_key(n) or n
-                if k not in self.used and n.strip():
+                if k not in self.used and n.strip() and "/" not in n and "~" not in n and "#" not in n:
                     self.used.add(k)
                     self.features.add("name:hostile")
                     return n
@@ -767,12 +767,16 @@ class Gen:
         r = self.rng.random()
         if loc == "header":
             kinds = ["str", "int", "num", "bool"]
+            if r < 0.05:
+                return self.scalar("uuid")
             if r < 0.7:
                 return self.scalar(self.rng.choice(kinds))
             return self.enum(ascii_only=True)
         if loc == "cookie":
-            if r < 0.8:
+            if r < 0.7:
                 return self.scalar("str")
+            if r < 0.8:
+                return self.scalar(self.rng.choice(["int", "bool", "num", "date", "uuid"]))
             return self.enum("str", ascii_only=True)
         if loc == "path":
             if r < 0.7:
@@ -831,6 +835,8 @@ class Gen:
                         nm = rng.choice(["X-Request-Id", "x-trace", "Accept-Language", "If-Match", "X-Rate-Limit", "x_custom", "X-A"]) if rng.random() < 0.7 else "X-" + names.benign(rng, "kebab")
                     else:
                         nm = names.hostile(rng) if (self.hostile and rng.random() < self.hostile) else names.benign(rng)
+                        if loc == "cookie" and not all(c.isalnum() and c.isascii() or c in "-_." for c in nm):
+                            continue  # cookie names are ASCII tokens
                     k = names.collide_key(nm) or nm
                     if k not in local and nm.strip():
                         local.add(k)
@@ -1048,8 +1054,8 @@ def matrix_components() -> dict:
 
 QUERY_OK = {"str", "int", "num", "bool", "date", "datetime", "uuid", "strfmt", "enum_str", "enum_int", "const_str", "array_str", "array_int", "array_date", "array_enum",
             "ref_enum", "ref_int_enum", "ref_alias", "union_scalar", "union_any_of", "typelist", "wrap_oneof", "union_enum_int", "any"}
-HEADER_OK = {"str", "int", "num", "bool", "enum_str", "enum_int", "ref_enum", "ref_int_enum", "strfmt"}
-COOKIE_OK = {"str", "enum_str", "ref_enum", "strfmt"}
+HEADER_OK = {"str", "int", "num", "bool", "enum_str", "enum_int", "ref_enum", "ref_int_enum", "strfmt", "uuid", "union_scalar"}
+COOKIE_OK = {"str", "enum_str", "ref_enum", "strfmt", "int", "num", "bool", "date", "uuid", "enum_int", "array_str"}
 PATH_OK = {"str", "int", "num", "bool", "date", "uuid", "enum_str", "enum_int", "ref_enum", "ref_int_enum", "strfmt"}
 
 
